@@ -601,6 +601,7 @@ fn th_race(args: &Args, rep: &mut Report, prop: &'static str, rounds: u64, unman
             let _ = cov.nontrivial.insert(out.hash);
             let _ = cov.schedules.insert(out.hash);
             if let Some(v) = out.violations.first() {
+                cov.bump("rounds_with_violation");
                 if finds.len() < 4 {
                     finds.push(Finding { v: v.clone(), sig: format!("{}/{}/{}", prop, if unmanaged { "uth_race" } else { "th_race" }, v.oracle), replay: out.desc.clone() });
                 }
